@@ -89,12 +89,14 @@ inline void op_reads_writes(const Op& o, std::vector<int>& ru, std::vector<int>&
 
 // Compare a perturbed run against the reference run; ops whose inputs may legitimately differ are tainted and skipped.
 // Returns index of first differing op or -1.
+// `skip` is an op that legitimately differs (the in-place target of an injected failure); the slot it worked on is tainted from there on.
 inline int compare_runs(const Plan& p, const std::vector<OpOut>& ref, const std::vector<OpOut>& out, std::set<int> tu, std::set<int> tq, int from, std::string* why, int skip = -1) {
     std::vector<int> ru, wu, rq, wq;
     for (int j = from; j < (int)p.ops.size(); j++) {
         const Op& o = p.ops[(size_t)j];
         if (ref[(size_t)j].aborted || out[(size_t)j].aborted) break;   // nothing after a fail-stop is comparable
-        if (o.kind == OP_LOSE || j == skip) continue;
+        if (j == skip) { if (o.a >= 0) tu.insert(o.a); continue; }
+        if (o.kind == OP_LOSE) continue;
         op_reads_writes(o, ru, wu, rq, wq);
         bool tin = false;
         for (int s : ru) if (tu.count(s)) tin = true;
@@ -167,7 +169,6 @@ template <class C> Verdict check_fault(const Plan& plan, Stats& st, const std::s
         if (out.aborted) continue;
         // bounded recovery / rest of the history
         std::string why; std::set<int> tu, tq;
-        if (to.fired && is_inplace(top.kind)) tu.insert(top.a);
         int d = compare_runs(q, ref.outs, out.outs, tu, tq, 0, &why, (to.fired && is_inplace(top.kind)) ? t : -1);
         if (d >= 0) {
             Violation nv; nv.kind = V_NO_RECOVERY; nv.op = d; nv.detail = "after the injected failure at op " + std::to_string(t) + " (k=" + std::to_string(trials[ti].first) + ") and with faults off again, " + why;
@@ -248,7 +249,17 @@ template <class C> Verdict check_C03(const Plan& plan, Stats& st) {
     int n = (int)base.text.size();
     Rng r(plan.run_seed ^ 0xc03);
     bool nontriv = false;
-    for (int w = n; w >= 0; w--) {
+    // every split point; for long texts (rare, seeded) both ends plus 48 seeded positions in between
+    std::vector<int> windows;
+    if (n <= 96) for (int w = n; w >= 0; w--) windows.push_back(w);
+    else {
+        std::set<int> ws;
+        for (int w = 0; w <= 8; w++) { ws.insert(w); ws.insert(n - w); }
+        for (int k = 0; k < 48; k++) ws.insert(r.range(0, n));
+        for (auto it = ws.rbegin(); it != ws.rend(); ++it) windows.push_back(*it);
+        st.probe("long_text_sampled_split_points");
+    }
+    for (int w : windows) {
         Op ref = base; ref.a = 0; ref.window = w; ref.placement = 0; ref.entry = 3; ref.mgr = 0; ref.fail_k = 0; ref.refree = 1;
         // variants
         struct Var { int placement, entry, mgr, trail; };
